@@ -6,8 +6,9 @@ d=$1; P=$2; N=${3:-600}; W=${4:-6}
 cd /var/tmp/wt-seed && git checkout -q -- . && git checkout -q --detach main && git apply $d/patch.diff || { echo "PATCH DOES NOT APPLY"; exit 3; }
 rsync -a --delete --exclude reposrc --exclude .cargo /verif/sim/ /var/tmp/seedtest/sim/
 cd /var/tmp/seedtest/sim && cargo build 2>&1 | grep -E "^error" -A8
+CMD=run; if [ "$P" = "C08" ]; then CMD=crash; N=$((N/10)); fi   # C08: N/10 histories, every sampled write boundary
 for w in $(seq 0 $((W-1))); do
-  /var/tmp/seedtest/target/debug/vsim run --prop $P --seed 1 --from $w --step $W --count $((N/W)) > /var/tmp/seedtest/out-$w.jsonl 2>/dev/null &
+  /var/tmp/seedtest/target/debug/vsim $CMD --prop $P --seed 1 --from $w --step $W --count $((N/W)) > /var/tmp/seedtest/out-$w.jsonl 2>/dev/null &
 done
 wait
 cat /var/tmp/seedtest/out-*.jsonl | python3 /var/tmp/summ.py | grep -v "^cov"
